@@ -32,6 +32,7 @@ def run(ctx, standalone=True):
     ctx.rule('C15.REFUSAL', lambda: rule_refusal(ctx), 1)
     ctx.rule('C15.STORED', lambda: rule_stored(ctx), 2)
     ctx.rule('C15.PENDING', lambda: rule_pending_owned(ctx), 3)
+    ctx.rule('C15.NOREFUSAL', lambda: rule_reorg_unrefused(ctx), 1)
     if standalone:
         # 'replacing up to the reorg limit of most recent blocks': the range backed out must be exactly the fork depth
         from . import c03
@@ -266,3 +267,23 @@ def rule_stored(ctx):
               'the undo infos are written unconditionally inside the UTXO batch of the flush',
               'the undo infos are not written unconditionally inside the UTXO batch', loc=ctx.loc(g, g.node))
     return 2
+
+
+def rule_reorg_unrefused(ctx, rule='C15.NOREFUSAL'):
+    '''reorg_chain itself never refuses a reorganisation: whether undo information exists is decided per block by
+    backup_block (read_undo_info is None).  An up-front depth test in reorg_chain compares against the wrong horizon - the
+    cached daemon height is already the new branch's tip - and refuses reorganisations whose undo rows all exist.'''
+    f = ctx.func('bp', 'BlockProcessor.reorg_chain')
+    exits = [s for s in f.own_nodes() if isinstance(s, (ast.Raise, ast.Return))]
+    bad = []
+    for s in exits:
+        conds = pr.control_conditions(s, f.node)
+        tip_guard = any(b and 'self.state.tip' in norm(t) and isinstance(t, ast.Compare) and isinstance(t.ops[0], ast.NotEq) for t, b, _p in conds)
+        in_loop = any(isinstance(p_, (ast.For, ast.While)) for p_, _f in q.enclosing_chain(s, f.node))
+        if isinstance(s, ast.Return) and tip_guard and in_loop:
+            continue
+        bad.append(f'line {s.lineno} `{norm(s)[:60]}`' + (f' under {[norm(t)[:50] for t, b, _p in conds]}' if conds else ''))
+    ctx.check(not bad, rule, ctx.key(f, None, 'no refusal ahead of the per-block undo check'),
+              'reorg_chain leaves early only when the block to undo is not the tip; missing undo information is detected per block',
+              'reorg_chain can refuse or abandon the reorganisation itself: ' + '; '.join(bad[:2]), loc=ctx.loc(f, f.node))
+    return 1
